@@ -31,8 +31,8 @@ func init() {
 			witnessFamily("C06"),
 			{Name: "deep", N: func(t string) int { return len(c06Deep(t)) }, Run: func(c *Case) { c06Construct(c, c06Deep(c.Tier)[c.Index], "deep") }},
 			{Name: "long", N: func(t string) int { return len(c06Long(t)) }, Run: func(c *Case) { c06Construct(c, c06Long(c.Tier)[c.Index], "long") }},
-			{Name: "trunc", N: tierN(1500, 20000), Run: c06Trunc},
-			{Name: "fuzz", N: tierN(1000, 10000), Run: c06Fuzz},
+			{Name: "trunc", N: tierN(1500, 60000), Run: c06Trunc},
+			{Name: "fuzz", N: tierN(1000, 40000), Run: c06Fuzz},
 			{Name: "fnargs", N: func(string) int { return len(xgen.AllFuncs) }, Run: c06FnArgs},
 		},
 	})
